@@ -82,6 +82,64 @@ def run_one(a):
         return cid, -999, ""
 
 
+# where `registers` shows the register the load-immediate instruction of Util.tla writes (pure lexing)
+REGRX = {"msp430": re.compile(r" r5: 0x([0-9a-f]{4})"), "6502": re.compile(r"A=0x([0-9a-f]{2})"),
+         "z80": re.compile(r" A: ([0-9a-f]{2}) "), "avr8": re.compile(r"r16: 0x([0-9a-f]{2})")}
+BPA = {"msp430": 1, "6502": 1, "z80": 1, "avr8": 2}
+# Util!LoadBytes is the reference; this table only renders the same bytes as `write` arguments and is checked
+# against the model by the acceptor (IsLoadAt must hold for the written memory)
+LOADB = {"msp430": lambda v: [0x35, 0x40, v & 255, (v >> 8) & 255], "6502": lambda v: [0xa9, v & 255],
+         "z80": lambda v: [0x3e, v & 255], "avr8": lambda v: [v & 15, 0xe0 | ((v >> 4) & 15)]}
+
+
+def fetch_part(chk, vdir, rd, wd, tier, rnd):
+    """the simulator fetches what write* stored: Util!FetchOk"""
+    g = C.tlc("GenUtil", "gen_UtilFetch.cfg", os.path.join(rd, "genfetch"), workers=1, heap="2g", prefixes=("FETCH ",))
+    chk.add_tlc(g)
+    fc = C.parse_payload(g.lines, "FETCH ")
+    if not fc or len(fc[0]) < 400:
+        raise C.InfraError("no fetch cases")
+    cases = sorted(fc[0], key=lambda c: json.dumps(c, sort_keys=True))
+    if tier == "quick":
+        cases = rnd.sample(cases, 160)
+    exe = os.path.join(vdir, "naken_util")
+    jobs, meta = [], {}
+    for i, c in enumerate(cases):
+        cpu, bpa = c["cpu"], BPA[c["cpu"]]
+        pc = c["pc"] - c["pc"] % 2
+        ib = LOADB[cpu](c["imm"])
+        cmds = [dict(k="write", w=1, a=pc, b=0, vals=[[b, 0, 0, 0] for b in ib], out=[])]
+        lines = ["write 0x%x %s" % (pc, " ".join("0x%x" % b for b in ib))]
+        if c["ow"]:
+            # overwrite the second half of the instruction with a 16 or 8 bit write (address in units)
+            w = 2 if c["ow"] == 2 else 1
+            if len(ib) == 4:
+                oa = pc + 2 // bpa
+            else:
+                oa = pc if (w == 2 or bpa == 2) else pc + 1
+                if bpa == 1 and w == 1:
+                    oa = pc + 1
+            cmds.append(dict(k="write", w=w, a=oa, b=0, vals=[c["ov"]], out=[]))
+            lines.append("%s 0x%x 0x%x" % ("write16" if w == 2 else "write", oa, c["ov"][0] | (c["ov"][1] << 8) if w == 2 else c["ov"][0]))
+        lines += ["set pc=0x%x" % pc, "step", "registers", "quit"]
+        cid = "f%d" % i
+        meta[cid] = (cpu, bpa, cmds, pc, "\n".join(lines) + "\n")
+        jobs.append((exe, wd, cid, cpu, meta[cid][4]))
+    events = []
+    with ThreadPoolExecutor(C.NCPU) as ex:
+        for cid, rc, out in ex.map(run_one, jobs):
+            cpu, bpa, cmds, pc, script = meta[cid]
+            tail = out[out.rfind("registers"):] if "registers" in out else out
+            m = REGRX[cpu].search(tail)
+            if rc != 0 or not m:
+                chk.report("util19:fetch:%s:no register dump" % cpu, "naken_util -%s (rc %s) showed no register after\n%s" % (cpu, rc, script),
+                           dict(script=script, rc=rc, out=out[-800:]))
+                continue
+            events.append({"id": cid, "cpu": cpu, "bpa": bpa, "big": False, "init": [{"a": a, "b": b} for a, b in INIT],
+                           "cmds": cmds, "pc": pc, "reg": int(m.group(1), 16)})
+    return events, meta
+
+
 def run(tier, seed):
     chk = C.Check(PROP, tier, seed, "model_checking")
     rnd = random.Random(seed)
@@ -145,8 +203,16 @@ def run(tier, seed):
                     c["out"] = []
                 evc.append(c)
             events.append({"id": cid, "bpa": bpa, "big": big, "init": [{"a": a, "b": b} for a, b in INIT], "cmds": evc})
+    fevents, fmeta = fetch_part(chk, vdir, rd, wd, tier, rnd)
+    events += fevents
     canaries = set()
-    pool = [e for e in events if any(c["k"] == "print" and c["out"] for c in e["cmds"])]
+    for e in rnd.sample([x for x in fevents if len(x["cmds"]) == 1], 6):
+        c = json.loads(json.dumps(e))
+        c["id"] = "canary." + e["id"]
+        c["reg"] ^= 1
+        canaries.add(c["id"])
+        events.append(c)
+    pool = [e for e in events if any(c["k"] == "print" and c.get("out") for c in e["cmds"])]
     for e in rnd.sample(pool, min(16, len(pool))):
         c = json.loads(json.dumps(e))
         c["id"] = "canary." + e["id"]
@@ -164,6 +230,11 @@ def run(tier, seed):
     for vid, v in sorted(bad.items()):
         if vid in canaries:
             continue
+        if vid in fmeta:
+            cpu, bpa, cmds, pc, script = fmeta[vid]
+            chk.report("util19:fetch:%s" % cpu, "naken_util -%s: after one step the register does not hold the immediate that write* stored (model: 0x%x)\n%s" % (cpu, v["expect"], script),
+                       dict(script=script, expect=v["expect"]))
+            continue
         cpu, bpa, big, cm, script = meta[vid]
         c = cm[v["at"] - 1]
         if vid == "probe_h":
@@ -173,7 +244,7 @@ def run(tier, seed):
                    "naken_util -%s: the dump of command %d differs from the model\n%s" % (cpu, v["at"], script),
                    dict(script=script, at=v["at"], expect=v["expect"]))
     chk.cov.update(dict(
-        evaluations=len(jobs),
+        evaluations=len(jobs) + len(fevents), fetch_cases=len(fevents),
         distinct_nontrivial=len({m[4] for m in meta.values()}),
         rule="GenUtil draws sessions of 2-6 write/write16/write32/print/print16/print32 commands (8 addresses incl. row and page "
              "boundaries, 10 values, ranges a-b); rendered with rotating number spellings (0x10, 10h, 16) for msp430, 68000, avr8, "
@@ -181,6 +252,7 @@ def run(tier, seed):
         traces_validated_against_impl=len(events) - len(canaries),
         canaries=dict(injected=len(canaries), rejected=len(canaries)), exhaustive=False))
     chk.samples = [meta[c][4] for c in rnd.sample(sorted(meta), 3)]
-    chk.assumptions = ["interactive asm, set/step (simulator fetch), disasm, symbol-name ranges, -address and -set_pc are not covered in this revision",
+    chk.assumptions = ["interactive asm, disasm, symbol-name ranges, -address and -set_pc are not covered in this revision (range disassembly and -address are exercised by C08)",
+                       "simulator fetch: one load-immediate instruction per CPU (msp430, 6502, z80, avr8), written with write/write16 and executed with set pc / step",
                        "the dump lexer takes lines of the form 0xADDR: v v v ..."]
     return chk.finish()
